@@ -66,13 +66,57 @@ def gen_exact_zero_case(rng, oid):
 TRACE_KEYS = ["mean_fn_before", "std_fn_before", "mc_peak_frq_before", None, None, "mean_fn_after", "std_fn_after", "mc_peak_frq_after"]
 
 
+def gen_pre_history(rng, m):
+    """what happened to the SAME object before the call that is judged: an earlier rejection with another search range (the accepted sets may coincide
+    with those of the second call), a peak update or an analysis of ONE azimuth on its own; ops are JSON-able lists"""
+    ops = []
+    u = rng.random()
+    par0 = dict(n=float(rng.choice([1.5, 2.0, 2.5, 3.0])), maxit=int(rng.choice([1, 2, 50])), dfn=str(rng.choice(hvgen.DISTS)), dmc=str(rng.choice(hvgen.DISTS)))
+    if u < 0.45:
+        ops.append(["fdwra", par0, list(hvgen.gen_range(rng, m.freq)) if rng.random() < 0.6 else [None, None], False, None])
+    elif u < 0.6:
+        ops.append(["fdwra", par0, list(hvgen.gen_range(rng, m.freq)), True, None])
+    elif u < 0.75:
+        ops.append(["update", list(hvgen.gen_range(rng, m.freq)), bool(rng.random() < 0.5)])
+    elif m.kind == "A" and len(m.rows_per_az) >= 2:
+        az = int(rng.integers(0, len(m.rows_per_az)))
+        if rng.random() < 0.5:
+            ops.append(["subfdwra", par0, list(hvgen.gen_range(rng, m.freq)), True, az])
+        else:
+            ops.append(["subupdate", az, list(hvgen.gen_range(rng, m.freq)), bool(rng.random() < 0.5)])
+    return ops
+
+
+def apply_pre_history(m, ops):
+    """returns False when a decision of the earlier call was within rounding distance of its threshold (the two worlds may then legitimately part)"""
+    for op in ops:
+        if op[0] in ("fdwra", "subfdwra"):
+            _, p0, r0, kw, az = op
+            if kw or az is not None:
+                r_ = m.fdwra_kw(p0["n"], p0["maxit"], p0["dfn"], p0["dmc"], tuple(r0), kw_empty=kw, az=az)
+            else:
+                r_ = m.fdwra(p0["n"], p0["maxit"], p0["dfn"], p0["dmc"], tuple(r0))
+            # an earlier call that RAISED (no peak in its range) leaves the object half updated (range and peaks written, rejection not run); the model's
+            # store keeps the previous state on an error -- such histories are not judged
+            if m.last_near_tie or r_ == "err":
+                return False
+        elif op[0] == "update":
+            m.update(tuple(op[1]), kw_empty=op[2])
+        elif op[0] == "subupdate":
+            m.sub_update(op[1], tuple(op[2]), kw_empty=op[3])
+    return True
+
+
 def run_one(m, par):
-    ret = m.fdwra(par["n"], par["maxit"], par["dfn"], par["dmc"], par["range"])
+    if par.get("kw"):
+        ret = m.fdwra_kw(par["n"], par["maxit"], par["dfn"], par["dmc"], par["range"], kw_empty=True)
+    else:
+        ret = m.fdwra(par["n"], par["maxit"], par["dfn"], par["dmc"], par["range"])
     return ret, m.last_debug
 
 
 def case_json(m, par):
-    d = dict(kind=m.kind, freq=m.freq.tolist(), params=dict(par, range=list(par["range"])))
+    d = dict(kind=m.kind, freq=m.freq.tolist(), params=dict(par, range=list(par["range"])), pre=getattr(m, "pre_ops", []))
     if m.kind == "T":
         d["rows"] = m.rows.tolist()
     else:
@@ -107,6 +151,18 @@ def run(ctx):
         else:
             m, par = gen_fdwra_case(rng, i + 1, kind) if i < n else gen_scatter_case(rng, i + 1)
         entry = None
+        # a third of the generic cases: the object has a HISTORY (an earlier rejection with another range, a peak update, an azimuth analysed on its own);
+        # half of those pass find_peaks_kwargs={} to the judged call (the entry peak search may then be skipped per azimuth, by that azimuth's own stored range)
+        m.pre_ops = []
+        if i < n and i % 40 != 7 and rng.random() < 0.34:
+            m.pre_ops = gen_pre_history(rng, m)
+            if not apply_pre_history(m, m.pre_ops):
+                ctx.near_tie_skipped += 1
+                ctx.count("near_tie_or_error_in_pre_history")
+                continue
+            if m.pre_ops:
+                par = dict(par, kw=bool(rng.random() < 0.5))
+                ctx.count("pre_history:" + m.pre_ops[0][0] + ("+kw" if par["kw"] else ""))
         ret, dbg = run_one(m, par)
         idx = len(lines) + len(m.lines) - 1
         lines += m.lines
@@ -244,6 +300,7 @@ def run(ctx):
 def replay(case):
     par = dict(case["params"], range=tuple(case["params"]["range"]))
     m = Mirror.trad(1, case["freq"], case["rows"]) if case["kind"] == "T" else Mirror.az(1, case["freq"], case["rows_per_az"], case["azimuths"])
+    apply_pre_history(m, case.get("pre", []))
     ret, dbg = run_one(m, par)
     outs = run_driver(m.lines)
     return dict(impl_return=ret, impl_masks=masks_of(m.obj), model=outs[-1][:400])
